@@ -8,7 +8,9 @@
 (* BufRing.tla for every initial size and buffer size in -1..MaxSize and     *)
 (* every sequence of up to MaxSteps AppendBack/RemoveFront.                  *)
 (* Defect = "unlink-one-early" starts the unlink at the last committed cell  *)
-(* (must be caught).                                                         *)
+(* (must be caught); Defect = "empty-by-front-value" makes RemoveFront do     *)
+(* nothing when the value in the front slot is nil (must be caught: a nil    *)
+(* element then blocks the queue for ever).                                  *)
 EXTENDS Ring, BufRing, TLC
 
 CONSTANTS MaxSize, MaxSteps, MaxCells, Defect
@@ -25,8 +27,8 @@ Init == \E isz \in Sizes, bsz \in Sizes :
           /\ abs = BInit(isz, bsz)
 
 AppendBack == /\ steps < MaxSteps
-              /\ LET v == steps + 1
-                     grow == end >= RLen(nx, head)
+              /\ \E v \in {steps + 1, BNIL} :        \* a fresh value or a nil element
+                 LET grow == end >= RLen(nx, head)
                      nx1 == IF grow THEN RLink(SetCyc(nx, Fresh(nalloc, bs)), RMove(nx, head, end - 1), nalloc + 1).nx ELSE nx
                  IN /\ (grow => nalloc + bs <= MaxCells)
                     /\ nx' = nx1 /\ nalloc' = IF grow THEN nalloc + bs ELSE nalloc
@@ -35,7 +37,10 @@ AppendBack == /\ steps < MaxSteps
               /\ end' = end + 1 /\ steps' = steps + 1 /\ UNCHANGED <<head, bs>>
 
 RemoveFront == /\ steps < MaxSteps /\ end > 0
-               /\ LET h2 == RMove(nx, head, 1)
+               /\ IF Defect = "empty-by-front-value" /\ val[head] = BNIL
+                    THEN UNCHANGED <<nx, val, head, end>> /\ abs' = BApply(abs, [op |-> "remove"]).b    \* "nothing to remove"
+                    ELSE
+                  LET h2 == RMove(nx, head, 1)
                       e2 == end - 1
                       at == IF Defect = "unlink-one-early" THEN e2 - 1 ELSE e2
                   IN /\ head' = h2 /\ end' = e2
